@@ -138,6 +138,18 @@ def kb_text(rules): return "(kb %s)" % " ".join(rules)
 
 def hist(rules, ops): return "(hist %s %s)" % (kb_text(rules), " ".join(ops))
 def build(slot, qterms): return "(build %d %s)" % (slot, " ".join(qterms))
+def build_text(slot, text): return "(build-text %d %s)" % (slot, S(text))
+def query_text(qterms):
+    """Suiron text of a query given as wire-format terms (atoms, integers, floats, variables)"""
+    def t(x):
+        x = parse(x)
+        if x[0] == "a": return unS(x[1])
+        if x[0] == "i": return x[1]
+        if x[0] == "v": return unS(x[2])
+        if x[0] == "f": return show_term(x)
+        raise ValueError(x)
+    ts = [t(x) for x in qterms]
+    return ts[0] if len(ts) == 1 else "%s(%s)" % (ts[0], ", ".join(ts[1:]))
 def ask(slot): return "(ask %d)" % slot
 
 def single_query_case(rules, qterms, nasks):
